@@ -47,6 +47,9 @@ CLAIMS = {
                 text="Solver-decided on the same inductive step as C01: a client holding an unexpired lease inside the pool gets one of those addresses (the named one if it holds it); a request is refused only with NoAssignableAddress and only if every pool address is held, unexpired, by another client; handle_pkt hands the pool ciaddr if set, else the requested-address option (REQUEST) / the requested-address option (DISCOVER). The claims are checked separately with and without the pre-state condition of known finding F-C09-1, so any violation outside that condition is still raised."),
     "C10": dict(engine="mirsym", technique=MS, design="3/C10", note=POOL_NOTE,
                 text="Solver-decided on the same inductive step: the lease duration returned by the pool lies within [min, max] for every symbolic min <= max; the stored row has start = reply time and expiry = start + advertised lease without wrap (so recorded_expiry - recorded_start = L and recorded_expiry >= t + L); no arithmetic panic (rustc's overflow assertions are kept as obligations) on any path, for any renewal rhythm (arbitrary pre-state row). Plus handle_pkt from MIR: every OFFER and every ACK carries option 51, its value equals recorded expiry - recorded start and lies within [min, max], also when a matching policy tries to override option 51."),
+    "C11": dict(engine="mirsym", technique="symbolic execution of rustc MIR into SMT (z3) of the policy evaluator, compared with a reference model written from erbium.conf(5)", design="3/C11",
+                text="Solver-decided on policy trees of bounded concrete shape (depth <= 2, width <= 3 quick; depth 3 thorough; conditions match-all / match-hardware-address / match-subnet / match-<option>(value|null); apply-<option>(value|null); own address pools) with all addresses, values and request fields symbolic: apply_policies + apply_policy + check_policy + check_policies + mutate_option(_default) + Ipv4Subnet arithmetic, executed from MIR, yield exactly Model(config, request): first matching sibling; AND of conditions; a condition-less policy applies iff a sub-policy does; outer then inner, inner overrides, null unsets; only requested options; own pool replaces the parent's; netmask/broadcast defaults of the matched subnet unless set or unset.",
+                note="NOT decided: YAML -> Policy (the loader), the built-in base policy from top-level settings (build_default_config: HashSet construction in iterator closures, outside the encoder), option value typing/serialisation (values are opaque 4-octet strings), trees deeper than 3 or wider than 3. Documented-silent cases are left unconstrained by the reference."),
     "C12": dict(technique=KB + " of the DHCP codec kernels and the Ethernet/IPv4/UDP frame builder", design="3/C12",
                 text="Solver-decided: get_broadcast_flag <=> flags & 0x8000 for all 65536 flag values; serialise_option output decodes (RFC 2132/3396 reference decoder in the harness) to the original value for lengths {0,1,2,7,255,256} (300/511 thorough); fixed-header parse(serialise(m)) = m for all header values (hlen 6 quick; 0 and 16 thorough); new_udp4 frames for payloads 0..2 (3,4,7 thorough): layout, lengths, addresses, ports, payload, verifying IPv4 and UDP checksums against an independent summation (thorough tier: frame harnesses need 4-8 min each).",
                 note="NOT decided: decoding of option multisets through the real parse_options and encoding from the real map (HashMap: out of CBMC's reach) - the decoder side is a reference decoder; payloads > 7 octets; which destination recvdhcp chooses (async socket code; only the flag predicate is decided). UDP-checksum harnesses exceed 14 GB at unwind 12 and are reported inconclusive where they do."),
@@ -66,7 +69,6 @@ PENDING = {}
 
 NOT_APPLICABLE = {
     "C18": "persistence across restart/upgrade/crash lives in SQLite's file format, journal and fsync behind FFI and the filesystem; neither Kani nor the MIR->SMT encoder executes it, and a model of SQLite durability would be an assumption rather than the code",
-    "C11": "policy evaluation runs over HashMap/HashSet-valued option tables (apply_policy, ResponseOptions): not executable by Kani; the MIR->SMT encoder has no map/trait-object (DhcpOptionTypeValue serialise) summaries yet. Not claimed in this round.",
     "C17": "check under construction (Kani harnesses over build_announcement_pure + icmppkt::serialise); not registered until it is stable on the unchanged tree",
     "C19": "check under construction (Kani harnesses over the config leaf parsers); not registered until it is stable on the unchanged tree",
 }
